@@ -134,7 +134,7 @@ class Run:
             name = "%s-%s.json" % (v["oracle"].replace("/", "_"), chash([case.get("key"), ck]))
             path = os.path.join(outdir, name)
             with open(path, "w") as f:
-                json.dump(dict(property=self.prop, case=case, violation=v), f, indent=1,
+                json.dump(dict(property=self.prop, case=case, violation=v, func=getattr(self.mod, "REPLAY_FUNC", "run_case")), f, indent=1,
                           sort_keys=True, default=str)
             reported.append((path, v))
         for eid, (e, case, v) in known_hits.items():
